@@ -151,7 +151,7 @@ int main(int argc, char** argv) {
 	// ---- a message longer than 2^32 bytes (zero pages, never resident): the one-shot call and the streamed session must agree;
 	//      the digest of the first (length mod 2^32) bytes alone is recorded to show that no length was truncated to 32 bits
 	if (atoi(arg(argc, argv, "--big", "1"))) {
-		const size_t extra = 3 + rng.below(120);
+		const size_t extra = 3 + rng.below(700);   // mostly more than one block beyond 2^32: a bound computed from (length - buffered block) must not lose the high word either
 		const size_t n = ((size_t)1 << 32) + extra;
 		uint8_t* big = (uint8_t*)mmap(nullptr, n, PROT_READ, MAP_PRIVATE | MAP_ANONYMOUS | MAP_NORESERVE, -1, 0);
 		if (big != MAP_FAILED) {
